@@ -90,6 +90,8 @@ def run(ck, fb):
     r02h(ck, fb, 'R01h')
     r01l(ck, fb)
     r01m(ck, fb)
+    r01n(ck, fb)
+    r01o(ck, fb)
     ck.borrow('rules.c08', {'R08h': 'R01k'}, 'the start-up restore loads the catalogued snapshot whatever the last-applied index says')
     ck.borrow('rules.c19', {'R19a': 'R01i', 'R19b': 'R01j'}, 'issued sequence counters are part of the state a restart must reproduce: replay folds every high-water mark, the snapshot stores the reserved end')
 
@@ -605,3 +607,170 @@ def r01m(ck, fb):
     ck.require(not hit, 'R01m', 'set_namespace:marker-is-not-stored', hit[0].where() if hit else b.where(),
                'after recognising the marker id set_namespace goes on to store it as a namespace: the mark written by build_snapshot comes back as a '
                'listed namespace "__already_sync" after a restart')
+
+
+def _closure_of(fb, start_names):
+    cg = get_cg(fb)
+    starts = set(start_names)
+    return [fb.bodies[n] for n in sorted(cg.reachable(start_names, stop=lambda n: 'actix::Handler' in n and n not in starts)) if n in fb.bodies]
+
+
+# live fields a snapshot decoder fills with a constant on purpose: (adt tail, field) -> reason
+DECODE_CONST_OK = {
+    ('Instance', 'from_cluster'): 'origin mark: a persistent instance loaded from the snapshot belongs to no peer node',
+    ('Instance', 'from_grpc'): 'origin mark: a persistent instance loaded from the snapshot belongs to no gRPC connection',
+}
+
+
+def _derived_impl(b):
+    return (b.trait or '') in ('std::fmt::Debug', 'std::clone::Clone', 'serde::Serialize', 'serde::Deserialize', 'std::cmp::PartialEq',
+                               'std::default::Default', 'std::hash::Hash', 'std::cmp::Eq', 'std::cmp::PartialOrd', 'std::cmp::Ord') or \
+        '_::<impl serde::' in b.name or 'as serde::' in b.name
+
+
+def r01o(ck, fb):
+    ck.rule('R01o', 'no field is lost between live state and snapshot record. Encode side: when a component\'s build_snapshot (or the to_do it calls) '
+                    'fills a record field with a literal and the same component\'s load_snapshot_record reads that field, build_snapshot assigns the '
+                    'field from live state before the record is written. Decode side: when the decoder fills a field of the live struct with a literal '
+                    'and a request handler reads that field, the load path (load_snapshot_record / load_completed) computes it again. Otherwise a '
+                    'restart from a snapshot serves something else than a restart that replays the same writes from the log')
+    comps = [b for b in fb.bodies.values() if re.search(r'::load_snapshot_record$', b.name)]
+    ck.floor('R01o', 'components with load_snapshot_record', len(comps), 5)
+    n_enc = n_dec = 0
+    for ld in sorted(comps, key=lambda b: b.name):
+        owner = ld.name[:-len('load_snapshot_record')]
+        comp = owner.split('::')[-2]
+        bs = fb.bodies.get(owner + 'build_snapshot')
+        lc = fb.bodies.get(owner + 'load_completed')
+        load_cl = _closure_of(fb, [ld.name] + ([lc.name] if lc else []))
+        build_cl = _closure_of(fb, [bs.name]) if bs else []
+        load_names = set(x.name for x in load_cl)
+        build_names = set(x.name for x in build_cl)
+        # encode side
+        for x in build_cl:
+            for (i, j, st) in x.aggregates(r'^rnacos::'):
+                rv = st['rv']
+                fields = rv.get('fields') or []
+                for k, op in enumerate(rv['ops']):
+                    c = op_const(op)
+                    if c is None or 'promoted' in c or k >= len(fields):
+                        continue
+                    adt, f = rv['adt'], fields[k]
+                    if adt.endswith('SnapshotRecordDto'):
+                        continue
+                    readers = [y for y in load_cl if any(o == adt and ff == f for (o, ff, _, _) in y.field_reads())]
+                    if not readers:
+                        continue
+                    n_enc += 1
+                    ck.analysed(x)
+                    setters = [y for y in build_cl if any(o == adt and ff == f for (o, ff, _, _) in y.field_writes())]
+                    ck.require(bool(setters), 'R01o', 'encode:%s:%s.%s' % (comp, adt.split('::')[-1], f), x.where(i),
+                               '%s writes %s.%s = %s into every snapshot record and %s reads it back: the live value is not in the snapshot, '
+                               'a node restarted from it serves something else' % (x.name.split('rnacos::')[-1], adt.split('::')[-1], f,
+                                                                                c.get('v'), readers[0].name.split('::')[-1]),
+                               'assigned from live state in %s' % (setters[0].name.split('::')[-1] if setters else ''))
+        # decode side
+        others = None
+        for x in load_cl:
+            for (i, j, st) in x.aggregates(r'^rnacos::'):
+                rv = st['rv']
+                fields = rv.get('fields') or []
+                for k, op in enumerate(rv['ops']):
+                    c = op_const(op)
+                    if c is None or 'promoted' in c or k >= len(fields):
+                        continue
+                    adt, f = rv['adt'], fields[k]
+                    tail = adt.split('::')[-1]
+                    if (tail, f) in DECODE_CONST_OK:
+                        ck.info('R01o', 'decode: %s.%s = %s accepted: %s' % (tail, f, c.get('v'), DECODE_CONST_OK[(tail, f)]))
+                        continue
+                    if others is None:
+                        others = [y for y in fb.bodies.values() if y.name not in load_names and y.name not in build_names
+                                  and y.name.startswith('rnacos::') or y.name.startswith('<rnacos::')]
+                    readers = [y for y in others if y.name not in load_names and y.name not in build_names and not _derived_impl(y)
+                               and any(o == adt and ff == f for (o, ff, _, _) in y.field_reads())]
+                    if not readers:
+                        continue
+                    n_dec += 1
+                    ck.analysed(x)
+                    setters = [y for y in load_cl if any(o == adt and ff == f for (o, ff, _, _) in y.field_writes())]
+                    ck.require(bool(setters), 'R01o', 'decode:%s:%s.%s' % (comp, tail, f), x.where(i),
+                               'the snapshot decoder sets %s.%s = %s, the field is read by %s, and nothing on the load path computes it again: '
+                               'after a restart from a snapshot it differs from what the same writes left in memory' % (
+                                   tail, f, c.get('v'), ', '.join(sorted(set(y.name.split('::')[-1] for y in readers))[:3])),
+                               'computed again by %s' % (setters[0].name.split('::')[-1] if setters else ''))
+    ck.floor('R01o', 'literal record fields read back + literal live fields read by handlers', n_enc + n_dec, 2)
+
+
+def _field_refs(b, owner, f, mut):
+    """blocks of `&self.f` (mut False) or `&mut self.f` (mut True) borrows of a field of the component"""
+    out = []
+    for (i, j, st) in b.stmts():
+        rv = st.get('rv')
+        if rv and rv.get('k') == 'ref' and bool(rv.get('mut')) == mut and isinstance(rv.get('pl'), dict):
+            pr = [e for e in rv['pl'].get('p', []) if isinstance(e, dict) and 'f' in e]
+            if pr and pr[-1]['f'] == f and pr[-1].get('o') == owner:
+                out.append(i)
+    return out
+
+
+def r01n(ck, fb):
+    ck.rule('R01n', 'a derived index is current whenever a replayed request reads it: start-up loads the snapshot records, replays the log, and only '
+                    'then sends LoadCompleted. For every collection field of a component that load_completed (re)builds, each read of it by a '
+                    'function the replayed requests run is either preceded, on every path in that function, by a call of the rebuilding function, '
+                    'or the field is kept up to date by load_snapshot_record itself. Otherwise a request in the log tail is decided on an empty '
+                    'index at restart and differently from how the running node decided it')
+    cg = get_cg(fb)
+    n = 0
+    comps = 0
+    for lc in sorted([b for b in fb.bodies.values() if re.search(r'::load_completed$', b.name)], key=lambda b: b.name):
+        owner_fn = lc.name[:-len('load_completed')]
+        comp_ty = owner_fn[:-2]
+        comp = comp_ty.split('::')[-1]
+        ld = fb.bodies.get(owner_fn + 'load_snapshot_record')
+        if ld is None:
+            continue
+        comps += 1
+        lc_cl = _closure_of(fb, [lc.name])
+        derived = {}
+        for x in lc_cl:
+            for (o, f, bb, st) in x.field_writes():
+                if o == comp_ty:
+                    fty = ''
+                    try:
+                        fty = dict((a, b_) for (a, b_) in [(q[0], q[1]) for q in fb.adt(comp_ty)['variants'][0]['fields']]).get(f, '')
+                    except Exception:
+                        pass
+                    if re.search(r'HashMap|BTreeMap|HashSet|BTreeSet|Vec<', fty):
+                        derived.setdefault(f, set()).add(x.name)
+        if not derived:
+            ck.info('R01n', '%s: load_completed rebuilds no collection field' % comp)
+            continue
+        ld_cl = _closure_of(fb, [ld.name])
+        # the handlers the replay path sends to on this component
+        handlers = [h for h in fb.bodies.values() if h.trait == 'actix::Handler' and h.self_ty == comp_ty and h.name.endswith('::handle')
+                    and h.trait_args and not h.trait_args[0].endswith('RaftApplyDataRequest')]
+        replay = set(cg.reachable([RD + 'load_log'], stop=lambda m: 'actix::Handler' in m and not m.startswith('<' + comp_ty)))
+        handlers = [h for h in handlers if h.name in replay]
+        if not ck.require(len(handlers) >= 1, 'R01n', 'anchor:%s:replayed-handler' % comp, lc.where(), 'no handler of %s is reached from load_log' % comp):
+            continue
+        run_cl = _closure_of(fb, [h.name for h in handlers])
+        for f, rebuilders in sorted(derived.items()):
+            kept = [x for x in ld_cl if _field_refs(x, comp_ty, f, True) or any(o == comp_ty and ff == f for (o, ff, _, _) in x.field_writes())]
+            for x in run_cl:
+                if x.name in rebuilders:
+                    continue
+                for bb in _field_refs(x, comp_ty, f, False):
+                    n += 1
+                    ck.analysed(x)
+                    dom = False
+                    for rb in rebuilders:
+                        for s0 in x.calls(re.escape(rb) + '$'):
+                            if s0.bb != bb and cfg.dominates_blocks(x, [s0.bb], bb):
+                                dom = True
+                    ck.require(dom or bool(kept), 'R01n', '%s:%s:read-in:%s' % (comp, f, x.name.split('::')[-1]), x.where(bb),
+                               '%s reads %s.%s, which is empty while the log is replayed on top of a snapshot (only load_completed builds it, '
+                               'after the replay) and is not rebuilt before the read: the replayed request is decided differently from how the '
+                               'running node decided it' % (x.name.split('::')[-1], comp, f),
+                               'rebuilt before the read' if dom else 'kept by %s' % (kept[0].name.split('::')[-1] if kept else ''))
+    ck.floor('R01n', 'reads of a rebuilt index by replayed requests', n, 2)
